@@ -77,6 +77,27 @@ Definition slot (p : params) (m : Z) : Z :=
   | KInactivity => inactivity_slot (p_ref p) m
   end.
 
+(* ---------------- the DOCUMENTED slots, in unbounded arithmetic ---------------- *)
+(* "start + (index - 1) * step": what the comments of the five routines promise.  Nothing
+   wraps here (plain Z, no uint8 / uint64 reduction): a slot computed by the code in a narrower
+   type than uint64 (e.g. the multiplication carried out in the uint8 group.MemberIndex) falls
+   BELOW this value for the high seats and the member then acts before its slot.  The relay
+   entry queue position is calculateSubmissionQueueIndex as documented (first submitter
+   entry mod groupSize, the others follow in a ring). *)
+Definition doc_queue_index (m first n : Z) : Z :=
+  if first <=? m then m - first else m + n - first.
+
+Definition doc_slot (p : params) (m : Z) : Z :=
+  match p_kind p with
+  | KBeaconDkg => p_ref p + (m - 1) * p_step p
+  | KRelay => p_ref p + doc_queue_index m (p_entry p mod p_n p) (p_n p) * p_step p
+  | KTbtcDkg => p_ref p + (m - 1) * dkgResultSubmissionDelayStepBlocks
+  | KApproval =>
+      if m =? p_submitter p then p_ref p + p_challenge p + 1
+      else p_ref p + p_challenge p + 1 + p_prec p + (m - 1) * dkgResultApprovalDelayStepBlocks
+  | KInactivity => p_ref p + (m - 1) * inactivityClaimSubmissionDelayStepBlocks
+  end.
+
 (* ---------------- early exit ---------------- *)
 
 (* what a waiting member observes, in order.  [Head b]: the chain head is at block b (the first
@@ -174,23 +195,26 @@ Definition earliest (p : params) : Z :=
   | _ => p_ref p
   end.
 
-Definition slot_in_window (p : params) (s : Z) : bool :=
-  (earliest p <=? s) &&
+(* the slot member m waits for: not before the reference block, NOT BEFORE THE DOCUMENTED SLOT
+   of its seat, and (relay entry) strictly before the timeout *)
+Definition slot_in_window (p : params) (m s : Z) : bool :=
+  (earliest p <=? s) && (doc_slot p m <=? s) &&
   match p_kind p with
   | KRelay => s <? p_ref p + p_timeout p       (* strictly before the relay entry timeout *)
   | _ => true
   end.
 
 Definition slots_ok (p : params) (l : list (Z * Z)) : bool :=
-  distinct_slots p l && forallb (fun ms => slot_in_window p (snd ms)) l.
+  distinct_slots p l && forallb (fun ms => slot_in_window p (fst ms) (snd ms)) l.
 
 Definition is_head_ge (s : Z) (e : option ev) : bool :=
   match e with Some (Head b) => s <=? b | _ => false end.
 Definition is_terminal (e : ev) : bool :=
   match e with Competing | Timeout _ => true | Head _ => false end.
 
-(* no submission before the slot, none after a competing event / when the pre-check says done *)
-Definition run_ok (p : params) (pre : bool) (h : list ev) (o : obs) : bool :=
+(* no submission before the slot — the one the routine waited for AND the documented one of the
+   member's seat —, none after a competing event / when the pre-check says done *)
+Definition run_ok (p : params) (m : Z) (pre : bool) (h : list ev) (o : obs) : bool :=
   match o_submit o with
   | None => true
   | Some (i, b) =>
@@ -199,6 +223,7 @@ Definition run_ok (p : params) (pre : bool) (h : list ev) (o : obs) : bool :=
       | None => false
       | Some s =>
           is_head_ge s (nth_error h i) &&                       (* reached its slot *)
+          (doc_slot p m <=? b) &&                               (* ... the documented one too *)
           match nth_error h i with Some (Head b') => b' =? b | _ => false end &&
           negb (existsb is_terminal (firstn i h))               (* nothing competing before *)
       end
@@ -228,7 +253,7 @@ Definition params_ok (p : params) : bool :=
 Definition spec_ok (c : case) : bool :=
   match c with
   | CSlots p l => slots_ok p l
-  | CRun p m pre h o => run_ok p pre h o
+  | CRun p m pre h o => run_ok p m pre h o
   | CQueue m first n q => (0 <=? q) && (q <? n) && ((first + q) mod n =? m mod n)
   end.
 
